@@ -205,7 +205,7 @@ CHECKS["C03"] = {
             "TDX/3 resp. TD_QE/2 and non-empty levels of the SIGNED member, and the C04 / C07 reference verdicts evaluated on the SIGNED member",
     "bounds": {"tcb_levels": "0..1 quick, 2 thorough", "module_identities": "0..1", "qe_levels": "1", "header_shapes": "missing / no value / two values / empty / undecodable / nil map"},
     "outside": ["JSON grammar; what exactly encoding/json accepts as a duplicate key (no relation between decoding the body and decoding its member is assumed)",
-                "encoding/json's merge semantics when decoding into a non-empty struct (the stub overwrites the whole target; seeded change C03A passes)"],
+                "encoding/json's merge semantics are modelled for three members only (tdxModuleIdentities, fmspc, QE tcbLevels may be omitted by the signed member)"],
     "assumptions": PKI_ASSUME + ["encoding/json.Unmarshal is a deterministic function of (document, target type)", "url.QueryUnescape / hex.DecodeString deterministic functions of the string"],
 }
 
@@ -267,7 +267,7 @@ CHECKS["C11"] = {
     "bounds": {"tcb_levels": "2", "module_identities": "1", "qe_levels": "2", "distribution_points": "2", "qe_auth_data": "{0,32,64} quick, +{1,200} thorough"},
     "outside": ["acceptance of Intel's sample quote under real cryptography (a concrete run the repository's tests already do)",
                 "DER minimality of the r/s integers handed to crypto/ecdsa (the DER blob is abstract; seeded change C11A ends inconclusive)",
-                "formatting of symbolic integers with fmt verbs other than %s/%v (opaque; seeded change C11B ends inconclusive)",
+                "formatting of symbolic integers wider than 32 bits or with verbs other than %d %x %v (opaque strings)",
                 "Processor-CA intermediates (rejected by the fixed name check; recorded as a modelling decision, not claimed either way)"],
     "assumptions": PKI_ASSUME,
 }
